@@ -75,6 +75,9 @@ def build_case(shard, vi, seed, ctor="Sigma", prep="fresh"):
         # a prior a million times tighter than the observation noise (every matrix keeps its condition number): gains of
         # size 1e-6 must come out with relative, not absolute, accuracy for the round trips to close
         Sx = Sx * 2.0 ** -20
+    if prep == "vague_prior":
+        # the mirror image: a precise observation of a vague prior (prior covariance a million times the noise)
+        Sx = Sx * 2.0 ** 20
     if prep == "sliced" and kind != "nncontrol":
         # the operands are reached from elsewhere: a larger batch sliced with NEGATIVE indices
         M2 = np.concatenate([M[:1] * -0.5 + 1.0, M], axis=0)
@@ -144,12 +147,16 @@ def run(shard, ctx, which):
           if kind == "nncontrol":
               preps = ("fresh", "updated", "replaced") if vi in (0, 100) else ("fresh",)
           elif ctor in ("Sigma", "b_none") and vi in (0, 100):
-              preps = ("fresh", "sliced", "updated") + (("replaced",) if (kind in ("full", "diag") and ctor == "Sigma") else ()) + (("units",) if ctor in ("Sigma", "Lambda") else ()) + (("tight_prior",) if ctor == "Sigma" else ())
+              preps = ("fresh", "sliced", "updated") + (("replaced",) if (kind in ("full", "diag") and ctor == "Sigma") else ()) + (("units",) if ctor in ("Sigma", "Lambda") else ()) + (("tight_prior", "vague_prior") if ctor == "Sigma" else ())
           elif vi == objs.HARD and ctor == "Sigma":
-              preps = ("fresh", "tight_prior")  # strongly correlated AND a million times tighter than the noise
+              preps = ("fresh", "tight_prior", "vague_prior")  # strongly correlated AND a million times tighter / wider than the noise
           else:
               preps = ("fresh",)
           for prep in preps:
+            if prep == "vague_prior" and not (which == "C08" and kind.startswith("identity")):
+                # only where every matrix involved stays inside the stated domain: the identity-mean marginal N(mu, Sx + Sy);
+                # a joint / posterior of a 1e6-times wider prior has a condition number far above 1e4
+                continue
             desc = dict(vi=vi, N=N, ctor=ctor, prep=prep)
             if not ctx.case(desc):
                 continue
